@@ -73,6 +73,12 @@ CLAIMS = {
                 text="Same pipeline harness: the output equals the source outside the applied edit ranges for every source/patch "
                      "configuration in the bound; with nothing applied the output is the source and fix_string reports no change.",
                 note="Text is opaque (RopeStr): equality means equal for every content of the base texts. Encoding layer: see evidence."),
+    "C24": dict(design_ref="§3 C24", technique=SYM + " (schedule = symbolic permutation enumerated through solver-decided forks)",
+                text="Real ParallelRunner.run/_apply, Linter.lint_paths assembly, LintedDir.add, LintingResult.as_records/stats on 3 "
+                     "(thorough 4) real SQL files with a pool whose results return in EVERY completion order and with every order of "
+                     "the path arguments; every task/result crosses a real pickle round trip (FluffConfig.__getstate__/__setstate__): "
+                     "records, per-directory stats, violation count and exit code equal the serial run's.",
+                note="Narrow: OS scheduling, real worker processes and fix-mode writes are outside."),
     "C29": dict(design_ref="§3 C29", technique="solver-based: z3 Fixedpoint (Datalog) reachability over the live grammar object graph of "
                 "every dialect + z3 regex-inclusion query for lexer totality", engine="z3-direct",
                 text="All 28 bundled dialects are loaded and expanded; every grammar element reachable from the root (elements, Ref targets, "
@@ -139,6 +145,12 @@ CLAIMS = {
                 text="Real deduplicate_in_source_space + source_signature over N<=3 (thorough 4) violations with symbolic line/col, code, "
                      "description, fix text and source fix: output sorted by (line, col), no two equal signatures, every input signature kept.",
                 note="Violation objects are real SQLLintError/SQLParseError with duck-typed rule/segment/fix stubs."),
+    "C34": dict(design_ref="§3 C34", technique=SYM,
+                text="load_raw_file_and_config with symbolic file size and byte limit, large_file_check with symbolic length and char "
+                     "limit (both unbounded): skipped iff limit != 0 and size > limit, a skipped file is never opened/processed. Real "
+                     "SequentialRunner/ParallelRunner (main-process and worker-side skip paths) over every oversized subset of 3 files: "
+                     "skipped files are counted once and never linted. cli._paths_fix: exit 1 on skip only with large_file_skip_fail.",
+                note="os.path.getsize, config and open are stubs; the lint command's inline tail is represented by the same two lines."),
 }
 
 NOT_APPLICABLE = {
@@ -149,5 +161,5 @@ NOT_APPLICABLE = {
     "C17": "fixpoint of the whole rule set over arbitrary SQL; not encodable",
 }
 for _p in ["C04", "C05", "C06", "C15", 
-           "C24", "C25", "C26", "C27", "C28", "C32", "C34"]:
+           "C25", "C26", "C27", "C28", "C32"]:
     NOT_APPLICABLE.setdefault(_p, "check not built yet (planned, see DESIGN.md §3); not claimed until its harness is committed")
